@@ -19,14 +19,17 @@
    the reader (result None of the run), or with Some None where the scope classes throw an exception of their own
    (unsupported key type).
    FRAGMENT (frag_reqs h = true): RGet (any key kind, any target), RObj, RArr with element requests AGet / AObj /
-   AArr / AEnd (nested to any depth), RVisit (VisitKeys without a callback), in any order — repeated keys, absent
-   keys, keys requested out of order (the wrap-around with its rewind), arrays left partly read included; byte
-   arrays (RBin / ABin), VisitKeys WITH a loading callback (REach) and the guarded / throwing element requests
-   (ATry / AThrow) are NOT re-expressed as a client.  Further operations of the client:
+   AArr / AEnd, RVisit (VisitKeys without a callback), REach (VisitKeys with a callback that, under the visited
+   key, does nothing / loads a value / opens an object / opens an array: VSkip / VGet / VObj / VArr — what
+   SerializeMapImpl does), all nested to any depth and in any order — repeated keys, absent keys, keys requested
+   out of order (the wrap-around with its rewind), arrays left partly read included.  NOT re-expressed as a client:
+   byte arrays (RBin / ABin / VBin / VBinArr) and the guarded / throwing requests (ATry / AThrow / VThrow).
+   Further operations of the client:
      OpenArrayScope            RdArr
      array element requests    CheckEnd (no reader call), then the typed read / RdMap / RdArr
      ~CMsgPackReadArrayScope   one RdSkip per remaining element
-     VisitKeys                 ResetKey, SetPosition(mStartPos), then per member ReadKey and ResetKey (= RdSkip) *)
+     VisitKeys                 ResetKey, SetPosition(mStartPos), then per member ReadKey, the callback's keyed request
+                               (the key is current: no search), ResetKey (= RdSkip when the value was not consumed) *)
 From BS Require Import Base MpSpec MpModel StreamIStream StreamSpec StreamModel StreamBsrProofs MpStreamModel MpStreamProofs.
 From BS Require Import MpLemmas MpReader MpTyped MpScopeSpec MpScopeModel MpScopeLemmas MpScopeTyped MpScopeProofs MpScopeRefine MpScopeClient.
 Local Open Scope N_scope.
@@ -104,15 +107,18 @@ Print Assumptions T_C03_stream_equals_memory.
 (* not vacuous: { "k":5, 7:{ "x":nil }, "arr":[1,"s"], "b":bin(1,2) } followed by 0x2A, chunk size 8; the array first
    (one of its two elements read, IsEnd asked, the rest passed by the destructor), then the nested object (found only
    after a wrap-around: rewind to 1; in it VisitKeys: rewind to the child's mStartPos = 6, then a key found after a
-   rewind to 6, then an absent one: a whole round and a rewind to 6), an absent key (rewind to 1), the first member
-   (rewind to 1), the same key again into a mismatching target under the Skip policy (rewind to 1); 76 reader
-   calls, 7 of them SetPosition; the reader ends at byte 23 *)
+   rewind to 6, then an absent one: a whole round and a rewind to 6), an absent key (rewind to 1), VisitKeys with a
+   callback (rewind to 1) that loads an int under the first key, opens the object under the second, the array under
+   the third and skips the fourth, then the first member (rewind to 1) and the same key again into a mismatching
+   target under the Skip policy; 88 reader calls, 8 of them SetPosition; the reader ends at byte 23 *)
 Definition sx_prog : reqs :=
   RCons (RArr (QStr [0x61; 0x72; 0x72]) (ACons (AGet (TgInt s32)) (ACons AEnd ANil)))
  (RCons (RObj (QU 7) (RCons RVisit (RCons (RGet (QStr [0x78]) TgNil) (RCons (RGet (QStr [0x79]) TgStr) RNil))))
  (RCons (RGet (QStr [0x7A]) TgStr)
+ (RCons (REach (VACons (VGet (TgInt s32)) (VACons (VObj (RCons (RGet (QStr [0x78]) TgNil) RNil))
+               (VACons (VArr (ACons (AGet (TgInt s32)) ANil)) VANil))))
  (RCons (RGet (QStr [0x6B]) (TgInt s32))
- (RCons (RGet (QStr [0x6B]) TgStr) RNil)))).
+ (RCons (RGet (QStr [0x6B]) TgStr) RNil))))).
 
 Definition seeks_of (t : transcript) : list N :=
   flat_map (fun x => match fst x with RdSetPos p => [p] | _ => [] end) t.
@@ -121,12 +127,14 @@ Example T_C03s_stream_example :
   frag_reqs sx_prog = true /\
   spec_reqs no_narrow id_widen skip_all ex_kvs sx_prog =
     ([KOpen; KVal (MpScopeSpec.VInt 1); KIsEnd false; KClose; KOpen; KKeys [KStr [0x78]]; KVal VNil; KFalse; KClose;
-      KFalse; KVal (MpScopeSpec.VInt 5); KFalse], None, false) /\
+      KFalse; KVal (MpScopeSpec.VInt 5); KOpen; KVal VNil; KClose; KOpen; KVal (MpScopeSpec.VInt 1); KClose;
+      KVal (MpScopeSpec.VInt 5); KFalse], None, false) /\
   match mps_client_bsr no_narrow id_widen 8 (stream_of ex_doc true) 100 skip_all (scope_client 25 sx_prog) with
   | Ok (tr, res) =>
     res = Some (Some ([KOpen; KOpen; KVal (MpScopeSpec.VInt 1); KIsEnd false; KClose; KOpen; KKeys [KStr [0x78]]; KVal VNil; KFalse; KClose;
-                       KFalse; KVal (MpScopeSpec.VInt 5); KFalse; KClose], 23, false)) /\
-    length tr = 76%nat /\ seeks_of tr = [1; 6; 6; 6; 1; 1; 1]
+                       KFalse; KVal (MpScopeSpec.VInt 5); KOpen; KVal VNil; KClose; KOpen; KVal (MpScopeSpec.VInt 1); KClose;
+                       KVal (MpScopeSpec.VInt 5); KFalse; KClose], 23, false)) /\
+    length tr = 88%nat /\ seeks_of tr = [1; 6; 6; 6; 1; 1; 1; 1]
   | Fault => False
   end.
 Proof.
@@ -136,9 +144,9 @@ Qed.
 Print Assumptions T_C03s_stream_example.
 
 (* NOT stated here:
-   - byte arrays (RBin / ABin), VisitKeys with a loading callback (REach), guarded element requests (ATry / AThrow)
-     as a client: for those the stream reader under the scopes is tied to the scope model by the correspondence
-     runs (kinds s, S of C03) only;
+   - byte arrays (RBin / ABin / VBin / VBinArr) and guarded / throwing requests (ATry / AThrow / VThrow) as a client:
+     for those the stream reader under the scopes is tied to the scope model by the correspondence runs (kinds s, S
+     of C03) only;
    - histories that end in an error: the client's run ends at the reader's exception; what the unwinding
      destructors do over a stream is not part of the client run (MpStreamModel.v: the run ends at the first
      exception);
